@@ -12,7 +12,7 @@ import (
 // Pair operations (in addition to the base alphabet).
 const (
 	OpPairReset    uint8 = 200 + iota // Reset the first world and pair it with a fresh one
-	OpPairLoad                        // A = variant: dump the first world and load into a fresh (0..2: capacity increment 1,2,128) or reset (3) world
+	OpPairLoad                        // A = variant: dump the first world and load into a fresh (0..2: capacity increment 1,2,128) or reset (3: one entity alive at Reset, 4: none) world
 	OpPairDump                        // take a dump and keep it while the world goes on
 	OpPairLoadKept                    // load the kept dump into a fresh world: it must reproduce the world as it was when the dump was taken
 )
@@ -50,7 +50,7 @@ func (p *PairCfg) OpString(op wx.Op) string {
 	case OpPairReset:
 		return "Reset (then continue in lock-step with a fresh world having the same registrations)"
 	case OpPairLoad:
-		return fmt.Sprintf("DumpEntities, LoadEntities into %s (then continue in lock-step)", [...]string{"a fresh world (capacity increment 1)", "a fresh world (capacity increment 2)", "a fresh world (capacity increment 128)", "a used and reset world"}[op.A])
+		return fmt.Sprintf("DumpEntities, LoadEntities into %s (then continue in lock-step)", [...]string{"a fresh world (capacity increment 1)", "a fresh world (capacity increment 2)", "a fresh world (capacity increment 128)", "a used and reset world", "a world that was emptied and then reset twice"}[op.A])
 	}
 	if op.K == OpPairDump {
 		return "d := DumpEntities() (kept while the world goes on)"
@@ -146,7 +146,7 @@ func (r *PairRun) Enabled() []wx.Op {
 	}
 	if r.cfg.Load {
 		if r.b == nil {
-			for v := int8(0); v < 4; v++ {
+			for v := int8(0); v < 5; v++ {
 				out = append(out, wx.Op{K: OpPairLoad, A: v})
 			}
 			if r.kept == nil {
@@ -357,7 +357,7 @@ func (r *PairRun) applyLoad(variant int) wx.Result {
 		}
 	}
 	c2 := *a.cfg
-	c2.CapInc = []int{1, 2, 128, 1}[variant]
+	c2.CapInc = []int{1, 2, 128, 1, 2}[variant]
 	c2.Prologue, c2.PreloadDump = nil, nil // the receiving world is fresh
 	b := NewRun(&c2)
 	b.cfg = a.cfg
@@ -366,6 +366,15 @@ func (r *PairRun) applyLoad(variant int) wx.Result {
 		e1 := b.w.NewEntity()
 		b.w.NewEntity()
 		b.w.RemoveEntity(e1)
+		b.w.Reset()
+	}
+	if variant == 4 {
+		// a world whose entities were all removed before the reset, reset twice
+		e1 := b.w.NewEntity()
+		e2 := b.w.NewEntity()
+		b.w.RemoveEntity(e1)
+		b.w.RemoveEntity(e2)
+		b.w.Reset()
 		b.w.Reset()
 	}
 	if pv := catch(func() { b.w.LoadEntities(&back) }); pv != nil {
